@@ -22,7 +22,9 @@ type fragQueue struct {
 	// corruption: xor mask applied to the byte at absolute stream offset
 	corrupt map[int]byte
 	// truncate: if >= 0 the stream ends (EOF) after this many bytes
-	truncAt int
+	truncAt   int
+	waiting   bool   // a reader is blocked on an empty queue
+	delivered []byte // bytes as delivered to the reader side (after corruption)
 }
 
 func newFragQueue(rng *RNG, maxFrag int) *fragQueue {
@@ -46,6 +48,7 @@ func (q *fragQueue) Write(p []byte) (int, error) {
 			b ^= m
 		}
 		q.buf = append(q.buf, b)
+		q.delivered = append(q.delivered, b)
 	}
 	q.log = append(q.log, p...)
 	q.written += len(p)
@@ -63,7 +66,9 @@ func (q *fragQueue) Read(p []byte) (int, error) {
 		if q.closed {
 			return 0, io.EOF
 		}
+		q.waiting = true
 		q.cond.Wait()
+		q.waiting = false
 	}
 	n := len(p)
 	if n > len(q.buf) {
@@ -108,3 +113,10 @@ func newDuplexPair(rng *RNG, maxFrag int) (*duplex, *duplex, *fragQueue, *fragQu
 }
 
 var errWatchdog = errors.New("watchdog: session stalled and was aborted")
+
+// idle reports whether a reader is blocked on this (empty) queue.
+func (q *fragQueue) idle() bool {
+	q.mu.Lock()
+	defer q.mu.Unlock()
+	return q.waiting && len(q.buf) == 0
+}
